@@ -21,6 +21,8 @@ pub mod c13;
 pub mod c14;
 #[cfg(feature = "full")]
 pub mod c16;
+#[cfg(feature = "full")]
+pub mod c18;
 pub mod c12;
 #[cfg(feature = "full")]
 pub mod common;
@@ -50,6 +52,8 @@ pub fn run(prop: &str, ctx: &Ctx) -> Option<Report> {
         "C14" => Some(c14::run(ctx)),
         #[cfg(feature = "full")]
         "C16" => Some(c16::run(ctx)),
+        #[cfg(feature = "full")]
+        "C18" => Some(c18::run(ctx)),
         "C12" => Some(c12::run(ctx)),
         _ => None,
     }
@@ -76,6 +80,8 @@ pub fn replay(prop: &str, ctx: &Ctx, case: &Value) -> ReplayResult {
         "C14" => c14::replay(ctx, case),
         #[cfg(feature = "full")]
         "C16" => c16::replay(ctx, case),
+        #[cfg(feature = "full")]
+        "C18" => c18::replay(ctx, case),
         "C12" => c12::replay(ctx, case),
         _ => Err(format!("no replay for property {}", prop)),
     }
